@@ -160,6 +160,19 @@ def _ids_of(nuc, nb):
     return {k: v for k, v in ids.items() if v not in ("", None)}
 
 
+def _tables_digest(nb, elements):
+    """Identity-level picture of every public table of the directory (keys -> object ids, list orders)."""
+    t = _tables(nb)
+    return (
+        tuple(id(n) for n in nb.instances),
+        tuple((k, tuple((key, id(o)) for key, o in d.items())) for k, d in sorted(t.items())),
+        tuple((z, id(e), tuple(id(m) for m in e.nuclides)) for z, e in elements.byZ.items()),
+        tuple((k, id(e)) for k, e in elements.bySymbol.items()),
+        tuple((k, id(e)) for k, e in elements.byName.items()),
+        tuple((n.name, n.label, n.abundance, n.weight, len(n.trans), len(n.decays)) for n in nb.instances),
+    )
+
+
 def _eval_directory(case):
     from armi.nucDirectory import elements, nucDir
     from armi.nucDirectory import nuclideBases as nb
@@ -167,6 +180,7 @@ def _eval_directory(case):
     vs = []
     st = {"objects": 0, "lookups": 0, "encoded": 0, "by_class": {}, "ids_per_kind": {}, "table_keys": 0, "dat_rows": 0, "mcc_rows": 0}
     tables = _tables(nb)
+    before = _tables_digest(nb, elements)
     owners = {k: {} for k in ID_KINDS}
     byzas = {}
     inst_ids = {id(n) for n in nb.instances}
@@ -272,6 +286,10 @@ def _eval_directory(case):
     if set(byzas) != seen:
         extra = sorted(set(byzas) - seen)[:5]
         _v(vs, "c19/dat-line-missing", "directory nuclides without a data line: %s" % extra, {"part": "directory", "name": str(extra)})
+    # the read-only public queries used above (lookups, nucDir front ends, identifier getters) leave
+    # every table exactly as it was
+    if _tables_digest(nb, elements) != before:
+        _v(vs, "c19/directory-mutated-by-query", "a read-only query (table lookup, nucDir.getNuclide/getNuclideFromName/getMc2Label, identifier getter) changed a directory table", {"part": "directory", "name": "tables"})
     mcc = read_yaml("mcc-nuclides.yaml")
     st["mcc_rows"] = len(mcc)
     for nm, d in sorted(mcc.items()):
@@ -298,6 +316,7 @@ def _eval_elements(case):
     st = {"elements": 0, "memberships": 0, "with_abundance": 0, "without_abundance": 0, "max_abundance_error": 0.0}
     elems = list(elements.byZ.values())
     inst_ids = {id(n) for n in nb.instances}
+    before = _tables_digest(nb, elements)
     for nuc in nb.instances:
         st["memberships"] += 1
         e = nuc.element
@@ -354,6 +373,8 @@ def _eval_elements(case):
             st["without_abundance"] += 1
             if e.isNaturallyOccurring() or isinstance(nb.byName.get(e.symbol), nb.NaturalNuclideBase):
                 _v(vs, "c19/natural-nuclide-spurious", "element %s has no natural isotopes but reports natural occurrence" % e.symbol, {"part": "elements", "name": e.symbol})
+    if _tables_digest(nb, elements) != before:
+        _v(vs, "c19/directory-mutated-by-query", "a read-only element query (getNaturalIsotopics, isNaturallyOccurring, nucDir natural isotopics) changed a directory table", {"part": "elements", "name": "tables"})
     return vs, st
 
 
@@ -408,6 +429,9 @@ def _eval_burnchain(case):
             w["trans" if cat == "transmutation" else "decays"].append((typ, tuple(prods), float(br)))
         want[parent] = w
     # the real loader, on the same file; undone afterwards (the directory is process-global)
+    from armi.nucDirectory import elements
+
+    before = _tables_digest(nb, elements)
     saved = [(n, n.trans, n.decays, n.nuSF) for n in nb.instances]
     was = nb.burnChainImposed
     try:
@@ -442,6 +466,8 @@ def _eval_burnchain(case):
         for n, tr, de, nu in saved:
             n.trans, n.decays, n.nuSF = tr, de, nu
         nb.burnChainImposed = was
+    if _tables_digest(nb, elements) != before:
+        _v(vs, "c19/directory-mutated-by-burnchain", "imposing the burn chain changed a directory table other than the nuclides' transmutation/decay lists", {"part": "burnchain", "name": "tables"})
     return vs, st
 
 
@@ -547,8 +573,183 @@ def _eval_material(case):
 
 
 # ---------------------------------------------------------------------------------------------
+# part: material histories - instances of a material class never share mutable state
+#
+# A small explicit history search per class.  State = the list of live instances (the most recent one
+# is "current") ; operations = instantiate, every in-place composition mutator the Material API offers
+# applied to the current instance, duplicate().  In EVERY reached state: a freshly made probe instance
+# observes exactly what the very first instance of the class observed; every live instance other than
+# the one just mutated still observes its snapshot; no two live instances share their massFrac object;
+# a duplicate equals its original at the moment of duplication.
 
-_PARTS = {"directory": _eval_directory, "elements": _eval_elements, "burnchain": _eval_burnchain, "material": _eval_material}
+HIST_OPS = ("new", "set-existing", "set-new", "remove", "clear", "direct", "adjust", "applyInputParams", "setDefaultMassFracs", "duplicate", "duplicate-keep")
+NEW_NUCLIDE_CANDIDATES = ("XE135", "KR85", "HE4")
+
+
+def _mat_obs(inst, Tprobe):
+    out = [("massFrac", tuple(sorted((k, float(v)) for k, v in inst.massFrac.items()))), ("refDens", repr(inst.refDens)), ("TD", repr(inst.theoreticalDensityFrac))]
+    for meth in ("pseudoDensity", "density", "linearExpansionPercent"):
+        o, v = _call(inst, meth, Tc=Tprobe)
+        out.append((meth, repr(float(v)) if o == "ok" and _finite(v) else "%s:%s" % (o, type(v).__name__)))
+    return tuple(out)
+
+
+def _obs_delta(a, b):
+    for (ka, va), (kb, vb) in zip(a, b):
+        if va != vb:
+            if ka == "massFrac":
+                da, db = dict(va), dict(vb)
+                diff = {k: (da.get(k), db.get(k)) for k in sorted(set(da) | set(db)) if da.get(k) != db.get(k)}
+                return "massFrac differs (expected, observed): %s; sum observed %.8g" % (dict(list(diff.items())[:6]), sum(db.values()))
+            return "%s: expected %s, observed %s" % (ka, va, vb)
+    return None
+
+
+def _hist_enabled(ref_names):
+    ops = []
+    for op in HIST_OPS:
+        if op in ("set-existing", "remove", "adjust", "direct") and not ref_names:
+            continue
+        ops.append(op)
+    return ops
+
+
+def _hist_apply(cls, live, op, ref_names, newnuc, Tprobe):
+    """Apply one operation; returns (outcome, index of the instance that may legitimately have changed)."""
+    cur = live[-1]["inst"] if live else None
+    if op == "new":
+        inst = cls()
+        live.append({"inst": inst, "snap": _mat_obs(inst, Tprobe)})
+        return "ok", None
+    if cur is None:
+        return "disabled", None
+    if op in ("duplicate", "duplicate-keep"):
+        before = _mat_obs(cur, Tprobe)
+        dup = cur.duplicate()
+        rec = {"inst": dup, "snap": _mat_obs(dup, Tprobe), "dup_of": before}
+        if op == "duplicate":
+            live.append(rec)  # the duplicate becomes the current instance
+        else:
+            live.insert(len(live) - 1, rec)  # the original stays current
+        return "ok", None
+    try:
+        if op == "set-existing":
+            cur.setMassFrac(ref_names[0], 0.5 * cur.massFrac.get(ref_names[0], 0.2))
+        elif op == "set-new":
+            cur.setMassFrac(newnuc, 0.0125)
+        elif op == "remove":
+            cur.removeNucMassFrac(ref_names[-1])
+        elif op == "clear":
+            cur.clearMassFrac()
+        elif op == "direct":
+            cur.massFrac[ref_names[-1]] = 0.123
+        elif op == "adjust":
+            cur.adjustMassFrac(ref_names[0], min(0.9, 0.5 * cur.massFrac.get(ref_names[0], 0.2) + 0.01))
+        elif op == "applyInputParams":
+            cur.applyInputParams()
+        elif op == "setDefaultMassFracs":
+            cur.setDefaultMassFracs()
+        else:
+            raise RuntimeError("unknown op %r" % op)
+        out = "ok"
+    except Exception as e:  # noqa: BLE001 - a refusing mutator is not this property's subject
+        if not _raised_outside_check(e):
+            raise
+        out = "refused:%s" % type(e).__name__
+    return out, len(live) - 1
+
+
+def _raised_outside_check(e):
+    tb, last = e.__traceback__, None
+    while tb is not None:
+        last, tb = tb, tb.tb_next
+    return last is not None and not last.tb_frame.f_code.co_filename.endswith("c19.py")
+
+
+def _eval_mathistory(case):
+    import itertools
+
+    name, depth = case["name"], case["depth"]
+    cls = matlib.cls_of(name)
+    vs = []
+    st = {"histories": 0, "transitions": 0, "states": 0, "refusals": 0, "ops": {}, "probes": 0}
+    try:
+        first = cls()
+    except Exception as e:
+        _v(vs, "c19/material-instantiate/%s" % name, "%s() raised %r" % (name, e), {"part": "mathistory", "name": name, "depth": depth, "hist": []})
+        return vs, st
+    lo, hi, _, _ = matlib.stated_range_C(name, "pseudoDensity")
+    Tprobe = 0.5 * (lo + hi)
+    ref = _mat_obs(first, Tprobe)
+    ref_names = sorted(first.massFrac)
+    newnuc = [n for n in NEW_NUCLIDE_CANDIDATES if n not in first.massFrac][0]
+    ops = _hist_enabled(ref_names)
+    if "hist" in case:
+        hists = [list(case["hist"])]
+    else:
+        hists = [list(h) for L in range(depth + 1) for h in itertools.product(ops, repeat=L)]
+    seen = set()
+    for hist in hists:
+        st["histories"] += 1
+        live = [{"inst": cls(), "snap": None}]
+        live[0]["snap"] = _mat_obs(live[0]["inst"], Tprobe)
+        problem = None
+        outs = []
+        for k in range(len(hist) + 1):
+            changed = None
+            if k > 0:
+                op = hist[k - 1]
+                out, changed = _hist_apply(cls, live, op, ref_names, newnuc, Tprobe)
+                outs.append(out)
+                st["transitions"] += 1
+                st["ops"][op] = st["ops"].get(op, 0) + 1
+                if out.startswith("refused"):
+                    st["refusals"] += 1
+            cur_hist = hist[:k]
+            # -- a fresh instance is the library's nominal material
+            st["probes"] += 1
+            try:
+                probe = cls()
+                d = _obs_delta(ref, _mat_obs(probe, Tprobe))
+            except Exception as e:  # noqa: BLE001
+                probe, d = None, "instantiation raised %r" % (e,)
+            if d:
+                problem = ("c19/material-shared-state/%s" % name, "after %s on one %s instance a fresh %s() is no longer the nominal material: %s" % (cur_hist or "nothing", name, name, d))
+            # -- untouched live instances keep their observation; the mutated one is re-snapshotted
+            if not problem:
+                for i, rec in enumerate(live):
+                    now = _mat_obs(rec["inst"], Tprobe)
+                    if i == changed:
+                        rec["snap"] = now
+                    elif now != rec["snap"]:
+                        problem = ("c19/material-shared-state/%s" % name, "after %s the untouched %s instance #%d changed: %s" % (cur_hist, name, i, _obs_delta(rec["snap"], now)))
+                        break
+                    if "dup_of" in rec:
+                        dd = _obs_delta(rec.pop("dup_of"), now)
+                        if dd and not problem:
+                            problem = ("c19/material-duplicate-differs/%s" % name, "after %s: duplicate() differs from its original: %s" % (cur_hist, dd))
+            # -- no two instances share their composition dictionary
+            if not problem:
+                objs = [rec["inst"] for rec in live] + ([probe] if probe is not None else [])
+                ids = {}
+                for i, o in enumerate(objs):
+                    if id(o.massFrac) in ids:
+                        problem = ("c19/material-shared-state/%s" % name, "after %s: two %s instances (#%d and #%d) hold the very same massFrac dictionary object" % (cur_hist or "nothing", name, ids[id(o.massFrac)], i))
+                        break
+                    ids[id(o.massFrac)] = i
+            if problem:
+                _v(vs, problem[0], problem[1], {"part": "mathistory", "name": name, "depth": depth, "hist": cur_hist})
+                break
+            seen.add((len(live), tuple(rec["snap"] for rec in live)))
+        if problem:
+            break  # shared state is now polluted in this process: later histories would not be replayable
+    st["states"] = len(seen)
+    return vs, st
+
+
+# ---------------------------------------------------------------------------------------------
+
+_PARTS = {"directory": _eval_directory, "elements": _eval_elements, "burnchain": _eval_burnchain, "material": _eval_material, "mathistory": _eval_mathistory}
 
 
 def _evaluate_counted(case):
@@ -571,6 +772,23 @@ def items(ctx):
 def run(ctx):
     its = ctx.order(items(ctx))
     res = core.pmap(MOD, "_evaluate_counted", its, chunksize=1)
+    # second phase, after every table/grid part is done: the history search mutates instances, and a
+    # defect it is looking for would pollute class-level state of the (long-lived) worker
+    depth = 3 if ctx.quick else 4
+    hits = ctx.order([{"part": "mathistory", "name": name, "depth": depth} for name, _ in matlib.discover()])
+    hres = core.pmap(MOD, "_evaluate_counted", hits, chunksize=1)
+    hs = {"histories": 0, "transitions": 0, "states": 0, "refusals": 0, "probes": 0}
+    hops = {}
+    for it, (vs, st) in zip(hits, hres):
+        ctx.add_violations(vs)
+        for k in hs:
+            hs[k] += st[k]
+        for k, v in st["ops"].items():
+            hops[k] = hops.get(k, 0) + v
+    for k, v in hs.items():
+        ctx.count("material_history_" + k, v)
+    for k, v in sorted(hops.items()):
+        ctx.count("material_history_op_" + k, v)
     ev = 0
     nontrivial = 0
     kinds = {}
@@ -605,11 +823,20 @@ def run(ctx):
             ctx.count("material_distinct_property_values", st["distinct_values"])
             if st["ranges"]:
                 ranges[it["name"]] = st["ranges"]
-    ctx.samples = [{"part": "directory"}, {"part": "burnchain"}] + [it for it in its if it["part"] == "material"][:2]
+    ev += hs["probes"]
+    nontrivial += hs["states"]
+    ctx.coverage.update(
+        material_history_depth=depth,
+        material_history_states=hs["states"],
+        material_history_transitions=hs["transitions"],
+        material_history_histories=hs["histories"],
+        material_history_operations=list(HIST_OPS),
+    )
+    ctx.samples = [{"part": "directory"}, {"part": "burnchain"}, {"part": "mathistory", "name": hits[0]["name"], "depth": depth, "hist": ["set-existing", "new"]}] + [it for it in its if it["part"] == "material"][:2]
     ctx.coverage.update(
         evaluations=ev,
         distinct_nontrivial=nontrivial,
-        rule="directory: one evaluation per (nuclide, identifier) lookup, per encoder comparison, per table key, per data-file line; elements: per element and per membership; burn chain: per entry/product; materials: per (material, property, grid temperature, calling convention). Non-trivial = identifier lookups + elements with abundances + burn-chain entries + distinct (property, value) pairs observed",
+        rule="directory: one evaluation per (nuclide, identifier) lookup, per encoder comparison, per table key, per data-file line; elements: per element and per membership; burn chain: per entry/product; materials: per (material, property, grid temperature, calling convention); material histories: per fresh-instance probe in every reached state. Non-trivial = distinct history states + identifier lookups + elements with abundances + burn-chain entries + distinct (property, value) pairs observed",
         exhaustive=True,
         materials_by_kind={k: sorted(v) for k, v in sorted(kinds.items())},
         material_ranges_C={m: r for m, r in sorted(ranges.items())},
@@ -622,4 +849,5 @@ def run(ctx):
         "identifier encoders for name/label/MCNP/AAAZZZS are written here from the documented rules; MC2 identifiers are table data compared with an independent parse of mcc-nuclides.yaml",
         "abstract bases (%s), Custom and Void are only instantiated: they are empty by definition" % sorted(matlib.ABSTRACT),
         "data files are parsed independently with str.split / ruamel safe loader (trusted)",
+        "material instances share no mutable state: all histories of bounded length over {instantiate, setMassFrac existing/new, removeNucMassFrac, clearMassFrac, direct massFrac item assignment, adjustMassFrac, applyInputParams(), setDefaultMassFracs, duplicate} on every class; a mutator that raises counts as refused; longer histories and attributes other than massFrac/refDens/theoreticalDensityFrac/densities at one probe temperature are not observed",
     ]
